@@ -6,7 +6,7 @@ From BV Require Import Base.Prelude Model.Block Model.ForkDB Model.Forkable Mode
   Model.CursorResolver Model.Joining
   Spec.Consumer Spec.Universe Check.Fk_Check Check.Burst_Check Check.C07_Check
   Spec.C09_Spec Spec.C05_Spec Spec.C06_Spec Spec.C07_Spec Spec.C13_Spec Spec.C07_Compose_Spec Spec.C07_Shapes_Spec Spec.C07_More_Spec
-  Spec.C07_Final_Spec
+  Spec.C07_Final_Spec Spec.C13_More_Spec
   Spec.C01_Spec Spec.C01_Moving_Spec Spec.C01_Roots_Spec
   Proofs.C06_Lists Proofs.C06_Proofs Proofs.C13_Proofs
   Proofs.C09_Store Proofs.C09_Segment Proofs.C09_Proofs
@@ -165,6 +165,112 @@ Proof.
     eapply Forall_impl; [|exact HB]. cbn beta. intros y Hy. apply N.ltb_lt. exact Hy.
   - destruct (IH HS') as (B1 & B2 & E & H1 & H2 & Hf). exists (b :: B1), B2. split; [rewrite E; reflexivity|].
     split; [constructor; assumption|]. split; assumption.
+Qed.
+
+(* ------------------------------------------------------------------ the cut at a stop block *)
+
+Lemma filter_comm2 {A} (p q : A -> bool) : forall l, filter p (filter q l) = filter q (filter p l).
+Proof. induction l as [|x l IH]; [reflexivity|]. cbn [filter]. destruct (q x) eqn:Eq, (p x) eqn:Ep; cbn [filter]; rewrite ?Eq, ?Ep, IH; reflexivity. Qed.
+
+Lemma filter_filter2 {A} (p q : A -> bool) : forall l, filter p (filter q l) = filter (fun x => q x && p x) l.
+Proof. induction l as [|x l IH]; [reflexivity|]. cbn [filter]. destruct (q x); cbn [filter andb]; rewrite IH; reflexivity. Qed.
+
+(* records keeps strictly increasing numbers *)
+Lemma records_above_mem : forall B lf b, In b (records lf B) -> match lf with Some n => n < bnum b | None => True end.
+Proof.
+  induction B as [|x B IH]; intros lf b Hb; [destruct Hb|]. cbn [records] in Hb.
+  destruct lf as [n|].
+  - destruct (N.leb_spec (bnum x) n) as [Hle|Hgt].
+    + exact (IH (Some n) b Hb).
+    + destruct Hb as [<-|Hb]; [exact Hgt|]. specialize (IH (Some (bnum x)) b Hb). cbn in IH. lia.
+  - destruct Hb as [<-|Hb]; exact I.
+Qed.
+
+Lemma records_sorted : forall B lf, StronglySorted blt (records lf B).
+Proof.
+  induction B as [|x B IH]; intros lf; [constructor|]. cbn [records].
+  destruct (match lf with Some n => bnum x <=? n | None => false end); [apply IH|].
+  constructor; [apply IH|]. apply Forall_forall. intros b Hb. exact (records_above_mem B (Some (bnum x)) b Hb).
+Qed.
+
+Lemma records_app : forall l1 l2 lf, exists lf', records lf (l1 ++ l2) = records lf l1 ++ records lf' l2.
+Proof.
+  induction l1 as [|b l1 IH]; intros l2 lf; [exists lf; reflexivity|].
+  cbn [app records]. destruct (match lf with Some n => bnum b <=? n | None => false end).
+  - apply IH.
+  - destruct (IH l2 (Some (bnum b))) as [lf' E]. exists lf'. rewrite E. reflexivity.
+Qed.
+
+Lemma final_cut_ext c canon start lf X X' Bd' hi out bS :
+  j_filter c = 1 ->
+  (exists Xt, X' = X ++ Xt) ->
+  records lf (map eblk (filter irr_ev X')) = Bd' -> StronglySorted blt Bd' ->
+  from_num start Bd' = seg_num start hi canon ->
+  snd (upto_stop c (undup c lf X)) = true -> out = fst (upto_stop c (undup c lf X)) ->
+  In bS canon -> bnum bS = j_stop c -> (j_stop c <> 0 -> start <= j_stop c) ->
+  exists pre e, out = pre ++ [e] /\ eblk e = bS /\ from_num start (map eblk out) = seg_num start (j_stop c) canon /\
+    exists Y2, undup c lf X = out ++ Y2.
+Proof.
+  intros Hfilter [Xt EX'] EBd HS Hfrom Hs Hout HbS HnS Hle0.
+  set (Y := undup c lf X) in *.
+  pose proof (undup_passes c X lf) as Hp. fold Y in Hp.
+  destruct (upto_stop_split c Y Hs) as (Y1 & e & Y2 & EY & Hns & Hse & Hf).
+  destruct (stops_true c e Hse) as (_ & H0 & Hge & Hfst). pose proof (Hle0 H0) as Hle.
+  assert (Hp1 : Forall (fun e => filter_pass c (estep e) = true) Y1) by (rewrite EY in Hp; apply Forall_app in Hp as [H _]; exact H).
+  assert (Hd1 : delivered c Y1 = Y1) by (rewrite (delivered_nostop c Y1 Hns); apply C06_Lists.filter_all; exact Hp1).
+  (* the blocks: Bd' = B1 ++ be :: B2 *)
+  assert (EB : exists B2, Bd' = map eblk Y1 ++ eblk e :: B2).
+  { rewrite <- EBd, EX', filter_app, map_app. destruct (records_app (map eblk (filter irr_ev X)) (map eblk (filter irr_ev Xt)) lf) as [lf' E].
+    rewrite E, <- (undup_blocks c Hfilter X lf). fold Y. rewrite EY, map_app. cbn [map]. rewrite <- app_assoc. cbn [app].
+    eexists. reflexivity. }
+  destruct EB as [B2 EB].
+  assert (HB1 : forall b, In b (map eblk Y1) -> bnum b < j_stop c).
+  { intros b Hb. apply in_map_iff in Hb as (x & <- & Hx). pose proof (upto_stop_nostop c Y1 Hns) as Hall. rewrite Forall_forall in Hall.
+    rewrite Forall_forall in Hp1. exact (stops_false_pass c x (Hall x Hx) (Hp1 x Hx) H0). }
+  rewrite EB in HS.
+  destruct (Proofs.C09_Proofs.StronglySorted_split blt (map eblk Y1) (eblk e) B2 HS) as [_ HB2].
+  (* the block of e is canonical, at or below hi; block S is in Bd': it is the block of e *)
+  assert (Hein : In (eblk e) (seg_num start hi canon)).
+  { rewrite <- Hfrom, EB. unfold from_num. apply filter_In. split; [apply in_or_app; right; left; reflexivity|]. apply N.leb_le. unfold enum in Hge. lia. }
+  unfold seg_num in Hein. apply filter_In in Hein as [Hec Hehi]. apply andb_true_iff in Hehi as [_ Hehi]. apply N.leb_le in Hehi.
+  assert (HbSin : In bS Bd').
+  { assert (H : In bS (from_num start Bd')).
+    { rewrite Hfrom. unfold seg_num. apply filter_In. split; [exact HbS|]. apply andb_true_iff. unfold enum in Hge. split; apply N.leb_le; lia. }
+    unfold from_num in H. apply filter_In in H as [H _]. exact H. }
+  assert (Ee : eblk e = bS).
+  { rewrite EB in HbSin. apply in_app_or in HbSin as [H|[H|H]].
+    - specialize (HB1 bS H). lia.
+    - exact H.
+    - specialize (HB2 bS H). unfold blt in HB2. unfold enum in Hge. lia. }
+  assert (Een : enum e =? j_stop c = true) by (apply N.eqb_eq; unfold enum; rewrite Ee; exact HnS).
+  exists Y1, e. rewrite Hout, Hf, Hd1, Hfst, Een. split; [reflexivity|]. split; [exact Ee|].
+  split; [|exists Y2; fold Y; rewrite EY, <- app_assoc; reflexivity].
+  (* cut both sides of from_num start Bd' = seg_num start hi canon at S *)
+  rewrite map_app. cbn [map].
+  assert (Hcut : filter (fun b => bnum b <=? j_stop c) (from_num start Bd') = from_num start (map eblk Y1 ++ [eblk e])).
+  { rewrite EB. unfold from_num. rewrite filter_comm2. f_equal.
+    change (eblk e :: B2) with ([eblk e] ++ B2). rewrite app_assoc, filter_app.
+    rewrite (C06_Lists.filter_none _ _ B2), app_nil_r.
+    - apply C06_Lists.filter_all. apply Forall_forall. intros b Hb. apply N.leb_le.
+      apply in_app_or in Hb as [Hb|[<-|[]]]; [specialize (HB1 b Hb); lia | rewrite Ee; lia].
+    - apply Forall_forall. intros b Hb. specialize (HB2 b Hb). unfold blt in HB2. apply N.leb_gt. rewrite Ee in HB2. lia. }
+  rewrite <- Hcut, Hfrom. unfold seg_num. rewrite filter_filter2. apply filter_ext_in. intros b _.
+  assert (HShi : j_stop c <= hi) by (rewrite Ee in Hehi; lia).
+  destruct (N.leb_spec start (bnum b)), (N.leb_spec (bnum b) hi), (N.leb_spec (bnum b) (j_stop c)); cbn [andb]; try reflexivity; lia.
+Qed.
+
+Lemma final_cut c canon start lf X X' Bd' hi out bS :
+  j_filter c = 1 ->
+  (exists Xt, X' = X ++ Xt) ->
+  records lf (map eblk (filter irr_ev X')) = Bd' -> StronglySorted blt Bd' ->
+  from_num start Bd' = seg_num start hi canon ->
+  snd (upto_stop c (undup c lf X)) = true -> out = fst (upto_stop c (undup c lf X)) ->
+  In bS canon -> bnum bS = j_stop c -> (j_stop c <> 0 -> start <= j_stop c) ->
+  exists pre e, out = pre ++ [e] /\ eblk e = bS /\ from_num start (map eblk out) = seg_num start (j_stop c) canon.
+Proof.
+  intros H1 H2 H3 H4 H5 H6 H7 H8 H9 H10.
+  destruct (final_cut_ext c canon start lf X X' Bd' hi out bS H1 H2 H3 H4 H5 H6 H7 H8 H9 H10) as (pre & e & E1 & E2 & E3 & _).
+  exists pre, e. auto.
 Qed.
 
 Section FinalRun.
@@ -840,6 +946,98 @@ Section FinalNum.
         rewrite (delivered_all_pass _ Hp Hns), (undup_blocks c Hfilter _ None), Erec.
         exact (D_all U c canon start w merged_end U_id U_uniq U_up D_decl Hstart Hmode Hbundle Hbound Hn).
   Qed.
+  (* ---------------------------------------------------------------- with a stop block: the run that ends with stop-block-reached *)
+
+  Lemma pushed_add' a b w0 : pushed c (a + b) w0 = pushed c a w0 ++ pushed c b (world_after c a w0).
+  Proof. unfold pushed, world_after. rewrite push_n_add. reflexivity. Qed.
+
+  (* continue the arrivals of a world until none is left *)
+  Lemma arrivals_done w0 k : w_rest (world_after c (k + length (w_rest (world_after c k w0))) w0) = [].
+  Proof.
+    rewrite <- world_after_add. apply length_zero_iff_nil. rewrite world_after_rest. lia.
+  Qed.
+
+  Lemma num_final_stop bS :
+    In bS canon -> bnum bS = j_stop c -> snd res = JStop ->
+    exists pre e, fst res = pre ++ [e] /\ eblk e = bS /\
+      from_num start (map eblk (fst res)) = seg_num start (j_stop c) canon.
+  Proof.
+    intros HbS HnS Hstop.
+    pose proof (c07_run_shapes_proof c w ps merged_end merged forked) as Hsh. cbv zeta in Hsh. unfold merged in Hsh.
+    rewrite Hstart, (run_files_num c canon start merged_end forked Hmode) in Hsh. cbn [fst snd] in Hsh.
+    fold merged in Hsh. fold stopf in Hsh. fold D in Hsh. fold fend in Hsh. fold res in Hsh.
+    (* a stopped run whose raw sequence X is a beginning of a sequence X' that ends complete *)
+    assert (Hraw : forall X X' P, run_rejected c w = false -> (exists Xt, X' = X ++ Xt) -> raw_out c (undup c None X) res P -> final_shape X' True ->
+              exists pre e, fst res = pre ++ [e] /\ eblk e = bS /\ from_num start (map eblk (fst res)) = seg_num start (j_stop c) canon).
+    { intros X X' P Hrej HX' Hro (Bd & EBd & _ & Hfin).
+      unfold raw_out in Hro. rewrite Hstop in Hro. destruct Hro as (Hs & Hf).
+      destruct (Hfin I) as (hi & _ & Hfrom).
+      apply (final_cut c canon start None X X' Bd hi (fst res) bS Hfilter HX' EBd); try assumption.
+      - rewrite <- EBd. apply records_sorted.
+      - exact (not_rejected_start c start w Hstart Hrej). }
+    assert (Hshape_weaken : forall X (P : Prop), P -> final_shape X P -> final_shape X True).
+    { intros X P HP (Bd & E & Hl & Hfin). exists Bd. split; [exact E|]. split; [exact Hl | intros _; exact (Hfin HP)]. }
+    destruct Hsh as [[_ Hr]|[Hrej [(burst & k & Hlt & Hro)|[[_ Hr]|[Hlt [(pre & e & rest & m & lowest & burst & k & Ef & Hns & Hj & Hro)|Hfo]]]]]].
+    - rewrite Hr in Hstop. discriminate.
+    - unfold live_try in Hlt. rewrite Hmode in Hlt. cbn [N.eqb] in Hlt.
+      destruct (h_ready (w_hub w)) eqn:Hrd; cbn [negb] in Hlt; [|discriminate].
+      rewrite (seen_final c _ Hfilter), (start_mem_num c Hmode) in Hro.
+      set (r := length (w_rest (world_after c k w))).
+      apply (Hraw (burst ++ pushed c k w) (burst ++ pushed c (k + r) w) (w_rest (world_after c k w) = []) Hrej); [exists (pushed c r (world_after c k w)); rewrite pushed_add', app_assoc; reflexivity | exact Hro|].
+      exact (Hshape_weaken _ _ (arrivals_done w k) (final_live burst (k + r) Hrd Hlt)).
+    - rewrite Hr in Hstop. discriminate.
+    - apply map_eq_app in Ef as (Dpre & D2 & ED & Epre & E2). apply map_eq_cons in E2 as (bn & D' & ED2 & Ebn & _).
+      subst pre e D2. rewrite (seen_final c _ Hfilter), (start_mem_num c Hmode) in Hro.
+      set (wm := world_after c m w) in *. set (r := length (w_rest (world_after c k wm))).
+      apply (Hraw (map fev Dpre ++ burst ++ pushed c k wm) (map fev Dpre ++ burst ++ pushed c (k + r) wm) (w_rest (world_after c k wm) = []) Hrej); [| exact Hro|].
+      + exists (pushed c r (world_after c k wm)). rewrite pushed_add', <- !app_assoc. reflexivity.
+      + exact (Hshape_weaken _ _ (arrivals_done wm k) (final_join m Dpre bn D' lowest burst (k + r) ED Hj)).
+    - (* files only *)
+      rewrite (seen_final c _ Hfilter), (start_mem_num c Hmode) in Hfo.
+      destruct (lnk_of_chain_ok D D_ok') as [x0 HlD].
+      assert (HDU : Forall (fun y => In y U) D).
+      { apply Forall_forall. intros y Hy. apply HmU. apply D_in' in Hy. tauto. }
+      assert (Erec : records None (map eblk (filter irr_ev (map fev D))) = D).
+      { rewrite irr_fev, map_eblk_fev. apply records_none. exact (lsorted _ _ HlD HDU). }
+      pose proof (undup_passes c (map fev D) None) as Hp.
+      assert (EYb : map eblk (undup c None (map fev D)) = D) by (rewrite (undup_blocks c Hfilter _ None); exact Erec).
+      destruct Hfo as [[Hns Hr]|[Hs Hr]].
+      + (* the marker: block S would have been delivered *)
+        exfalso. rewrite Hr in Hstop. cbn [snd] in Hstop.
+        assert (E0 : j_stop c <> 0) by (intros E; unfold fend in Hstop; rewrite E in Hstop; discriminate).
+        assert (Hble : (j_stop c / j_bundle c + 1) * j_bundle c <= merged_end).
+        { unfold fend in Hstop. apply N.leb_le. case_eq ((j_stop c / j_bundle c + 1) * j_bundle c <=? merged_end); [reflexivity|].
+          intros E. rewrite E, andb_false_r in Hstop. discriminate. }
+        assert (Estopf : stopf = j_stop c) by (unfold stopf; apply N.eqb_neq in E0; rewrite E0; reflexivity).
+        pose proof (N.mul_succ_div_gt (j_stop c) (j_bundle c)) as Hdiv. rewrite <- N.add_1_r in Hdiv.
+        pose proof (not_rejected_start c start w Hstart Hrej E0) as Hle.
+        assert (HbSD : In bS D).
+        { apply D_in'. rewrite Estopf. split; [unfold merged; apply filter_In; split; [exact HbS | apply N.ltb_lt; nia] | nia]. }
+        pose proof (upto_stop_nostop c _ Hns) as Hall. rewrite Forall_forall in Hall.
+        rewrite <- EYb in HbSD. apply in_map_iff in HbSD as (x & Ex & Hx).
+        rewrite Forall_forall in Hp.
+        pose proof (stops_false_pass c x (Hall _ Hx) (Hp x Hx) E0) as Hlt'. unfold enum in Hlt'. rewrite Ex in Hlt'. lia.
+      + (* stopped within the files: D is canon from start up to the end of the files read *)
+        fold res in Hr.
+        assert (Hf : fst res = fst (upto_stop c (undup c None (map fev D)))) by (rewrite Hr; reflexivity).
+        destruct (upto_stop_split c _ Hs) as (Y1 & e & Y2 & EYs & _ & Hse & _).
+        destruct (stops_true c e Hse) as (_ & E0 & Hge & _).
+        assert (HeD : In (eblk e) D).
+        { rewrite <- EYb, EYs. apply in_map. apply in_or_app. right. left. reflexivity. }
+        set (lim := N.min ((stopf / j_bundle c + 1) * j_bundle c) merged_end).
+        assert (Hlim : bnum (eblk e) < lim).
+        { apply D_in' in HeD as (Hm & _ & H2). unfold merged in Hm. apply filter_In in Hm as [_ Hm]. apply N.ltb_lt in Hm. unfold lim. lia. }
+        apply (final_cut c canon start None (map fev D) (map fev D) D (lim - 1) (fst res) bS Hfilter); try assumption.
+        * exists []. rewrite app_nil_r. reflexivity.
+        * exact (lsorted _ _ HlD HDU).
+        * assert (EDfrom : from_num start D = D).
+          { unfold from_num. apply C06_Lists.filter_all. apply Forall_forall. intros b Hb. apply D_in' in Hb. apply N.leb_le. lia. }
+          rewrite EDfrom. unfold D at 1, file_delivery, merged, seg_num. rewrite filter_filter2. apply filter_ext_in. intros b _.
+          fold stopf. unfold lim in *.
+          destruct (N.ltb_spec (bnum b) merged_end), (N.leb_spec start (bnum b)), (N.ltb_spec (bnum b) ((stopf / j_bundle c + 1) * j_bundle c)),
+            (N.leb_spec (bnum b) (N.min ((stopf / j_bundle c + 1) * j_bundle c) merged_end - 1)); cbn [andb]; try reflexivity; lia.
+        * exact (not_rejected_start c start w Hstart Hrej).
+  Qed.
 End FinalNum.
 
 Lemma c07_seamless_num_final_proof : C07_seamless_num_final.
@@ -853,4 +1051,18 @@ Proof.
   { split; [|exact Hrest]. rewrite Hhub. apply (hub_ok_run U (j_first c) (j_kept c) Hwfb Hlok l Hl). }
   exact (num_final U c canon start w ps merged_end forked Hid Huniq Hup Hdecl Hchain Hincl Hstartblk eq_refl HW Htip Hmode Hfilter
            Hbundle Hbound).
+Qed.
+
+(* the stop clause for final blocks only (Spec/C13_More_Spec.v) *)
+Lemma c13_stop_final_num_proof : C13_stop_final_num.
+Proof.
+  intros U c w ps merged_end canon forked Hwfb Hlok [[l [Hl Hhub]] Hrest] Hchain Hincl merged Htip
+         Hmode Hfilter Hbundle Hbound res start Hstartblk bS HbS HnS Hstop.
+  assert (Hscope : disc_scope2_b U = true) by (unfold disc_scope2_b; rewrite Hwfb, Hlok; reflexivity).
+  pose proof (bridge_id U Hwfb) as Hid. pose proof (bridge_uniq U Hwfb) as Huniq. pose proof (bridge_up U Hwfb) as Hup.
+  pose proof (bridge2_decl_none U Hscope) as Hdecl.
+  assert (HW : WOK U c w).
+  { split; [|exact Hrest]. rewrite Hhub. apply (hub_ok_run U (j_first c) (j_kept c) Hwfb Hlok l Hl). }
+  exact (num_final_stop U c canon start w ps merged_end forked Hid Huniq Hup Hdecl Hchain Hincl Hstartblk eq_refl HW Htip Hmode Hfilter
+           Hbundle bS HbS HnS Hstop).
 Qed.
